@@ -12,7 +12,7 @@ PROPS = {
                               "isAnyGTE_spec", "denomsSubsetOf_spec", "isEqual_partial", "isEqual_sound", "newCoins_spec", "newCoins_of_valid")] +
                              ["Posmint.Props.C18DecCoins." + t for t in ("add_spec", "add_none_iff", "add_canon", "safeSub_spec", "sub_spec", "add_sub_inverse",
                               "scale_spec", "scale_total", "mulDec_spec", "mulDecTruncate_spec", "quoDec_spec", "quoDecTruncate_spec", "quoDec_zero_panics",
-                              "mulDec_none_iff", "truncateDecimal_spec")],
+                              "mulDec_none_iff", "truncateDecimal_spec", "intersect_spec")],
         "t1": [
             {"family": "arith", "model": "arith", "stateless": True, "quick_n": 60000, "thorough_n": 16000000},
         ],
